@@ -1,0 +1,22 @@
+//go:build verif
+
+package cache
+
+import "github.com/MichaelMure/git-bug/entity"
+
+// VerifSetCacheSize exposes setCacheSize (the maximum number of loaded entities per
+// sub-cache) to the verification harness.
+func (c *RepoCache) VerifSetCacheSize(size int) {
+	c.setCacheSize(size)
+}
+
+// VerifLoadedBugIds lists the bugs currently held in memory.
+func (c *RepoCache) VerifLoadedBugIds() []entity.Id {
+	c.bugs.mu.RLock()
+	defer c.bugs.mu.RUnlock()
+	ids := make([]entity.Id, 0, len(c.bugs.cached))
+	for id := range c.bugs.cached {
+		ids = append(ids, id)
+	}
+	return ids
+}
